@@ -7,18 +7,25 @@ LEVEL_TEXT = (
     "Lean 4 theorems over the model of the two naming rules and of the analyzer's duplicate check: the interface declares "
     "every parameter, party and environment key under exactly the name lowering requires in the IR, whatever the case "
     "it was written in; and the duplicate check is silent exactly when the keys are pairwise distinct, so an accepted "
-    "program has collision-free keys. Per generated program (identifiers in lower, upper, title and mixed case, unused "
+    "program has collision-free keys; through the lowering model (the one C01 ties to lowering.rs field by field): whatever it "
+    "produces for a transaction - every program, expression, input block, context and fuel - holds a value placeholder only under "
+    "the lower-cased name of a parameter of that transaction, a party or an environment key, so every name the independent walk "
+    "of C06 finds and every name find_params reports on the lowered IR is a key the interface lists "
+    "(C17_lowered_requires_declared, C17_lowered_keys_listed, C17_reported_params_listed). Per generated program (identifiers in lower, upper, title and mixed case, unused "
     "parameters, environment values, colliding names) the real tx3c binary built from the working tree emits the TII "
     "file; the embedded IR is decoded by the real from_bytes and compared with lowering; find_params of the decoded IR "
     "must be within the declared keys and every declared name the body uses must be required under the declared spelling."
 )
 LEVEL_NOTE = (
-    "Partial: lowering itself is not modelled here (it is for C01); that the keys the IR requires stem from declared "
-    "names is observed on the real pipeline per case. tx3c is run as a process; its JSON is parsed by the harness."
+    "The lowering model's tie to lowering.rs is C01's per-case comparison of lowered transactions (parties there are capitalised, "
+    "so the lower-casing rule is exercised); chain-specific directives are outside the lowering model, so names used only inside "
+    "them are covered per case only (the single-use parameter sweep). tx3c is run as a process; its JSON is parsed by the harness."
 )
 PROP = "C17"
-TARGETS = ["Tx3Proofs.C17"]
-THEOREMS = ["Tx3.Tii.C17_same_spelling", "Tx3.Tii.C17_required_are_declared", "Tx3.Tii.dupNames_nil_iff", "Tx3.Tii.C17_no_collision"]
+TARGETS = ["Tx3Proofs.C17", "Tx3Proofs.C17Lower"]
+THEOREMS = ["Tx3.Tii.C17_same_spelling", "Tx3.Tii.C17_required_are_declared", "Tx3.Tii.dupNames_nil_iff", "Tx3.Tii.C17_no_collision",
+            "Tx3.Lang.lower_decl", "Tx3.Lang.resolve_names", "Tx3.Lang.C17_lowered_requires_declared",
+            "Tx3.Lang.C17_lowered_keys_listed", "Tx3.Lang.C17_reported_params_listed"]
 RULE = (
     "cases = programs with 2 parties, 2-4 transaction parameters (one unused in half of them), optionally an env block "
     "with two values used in the body, identifiers independently drawn in lower / UPPER / Title / MiXeD case; every "
